@@ -419,12 +419,12 @@ class JSONPatch:
                     value=self._op_value(operation, "value", "addne", i),
                 )
             elif op == "addap":
-                self.addne(
+                self.addap(
                     path=self._op_pointer(operation, "path", "addap", i),
                     value=self._op_value(operation, "value", "addap", i),
                 )
             elif op == "remove":
-                self.remove(path=self._op_pointer(operation, "path", "add", i))
+                self.remove(path=self._op_pointer(operation, "path", "remove", i))
             elif op == "replace":
                 self.replace(
                     path=self._op_pointer(operation, "path", "replace", i),
